@@ -451,7 +451,7 @@ func main() {
 		replay(a.Replay)
 		return
 	}
-	out := vlib.NewOut(a, progs.Header("Run_C14"), "lcase", 60)
+	out := vlib.NewOut(a, progs.Header("Run_C14"), "c14case", 60)
 	rng := vlib.NewRand(a.Seed)
 	nmain, nflag := 260, 45
 	if a.Thorough() {
@@ -469,7 +469,7 @@ func main() {
 			c := h.w.Run(h.ops, h.omit, false)
 			c.Note = flag
 			id := out.NextID()
-			out.Add(h.w.CoqLCase(id, c), c, nontrivial(c))
+			out.Add("(C14L "+h.w.CoqLCase(id, c)+")", c, nontrivial(c))
 			stream := "main"
 			if flag != "" {
 				stream = "flag:" + flag
@@ -503,7 +503,29 @@ func main() {
 	for _, f := range []string{"moved-decl", "type-change", "kind-later", "cross-conflict"} {
 		run(f, nflag)
 	}
-	out.Flush("load/reload/unload/line/GC histories (5-10 steps) over edited versions of one program (identical, comment, rules, keys, add/drop last declaration, kind of the first declaration, syntax error; flagged streams: moved declaration, type change, kind change of a later declaration, later declaration clashing with another program); non-trivial when a running program holding data is successfully reloaded with different source", false)
+	// ---- reloads through the program directory (LoadAllPrograms) ----
+	ndir := 60
+	if a.Thorough() {
+		ndir = 600
+	}
+	for i := 0; i < ndir; i++ {
+		h := genDirHistory(rng.Fork())
+		c := h.w.Run(h.ops, false, true)
+		c.Note = "dir"
+		fs, interesting := checkDir(h, c)
+		id := out.NextID()
+		out.Add("(C14D "+h.w.CoqDCase(id, c)+")", c, interesting)
+		out.Count("dir-histories")
+		seen := map[string]bool{}
+		for _, f := range fs {
+			if seen[f.class] {
+				continue
+			}
+			seen[f.class] = true
+			out.Violate(f.class, f.what, map[string]any{"kind": "dir-history", "case": c})
+		}
+	}
+	out.Flush("load/reload/unload/line/GC histories (5-10 steps) over edited versions of one program (identical, comment, rules, keys, add/drop last declaration, kind of the first declaration, syntax error; flagged streams: moved declaration, type change, kind change of a later declaration, later declaration clashing with another program); non-trivial when a running program holding data is successfully reloaded with different source; plus histories of 3-6 LoadAllPrograms scans of a real program directory whose p.mtail is edited between scans (identical, comment, rules, keys, drop, syntax error, kind change refused by the store) with lines after every scan, non-trivial when a reload fails while a previous version runs", false)
 }
 
 func replay(path string) {
@@ -533,10 +555,21 @@ func replay(path string) {
 		if o.K == "line" {
 			fmt.Printf(" %q", o.Line)
 		}
+		if o.K == "scan" {
+			for _, e := range o.Dir {
+				fmt.Printf("\n      %s <<\n%s>>", e.Name, w.Srcs.Texts[e.Src])
+			}
+		}
 		fmt.Println()
 	}
-	got := w.Run(ops, c.Omit, false)
-	fs := check(got)
+	var fs []finding
+	if c.Note == "dir" {
+		got := w.Run(ops, false, true)
+		fs, _ = checkDir(hist{w: w}, got)
+	} else {
+		got := w.Run(ops, c.Omit, false)
+		fs = check(got)
+	}
 	fail := false
 	for _, f := range fs {
 		fmt.Printf("%s: %s\n", f.class, f.what)
